@@ -421,3 +421,46 @@ Example ex_colon_password :
   chain cfg_colon {| method := L "GET"; path := L "/api/v1/dags"; rawpath := []; hdr := std_basic (L "admin") (L "a") |} = Unauth /\
   parse_basic (std_basic (L "admin") (L "a:b:c")) = Some (L "admin", L "a:b:c").
 Proof. vm_compute. repeat split. Qed.
+
+(* C17, wrong secrets in the standard forms are refused - for every user/password/token other than the configured one,
+   whatever else is configured (a configured token does not let a wrong Basic pair through, and the reverse) *)
+Lemma la_eqb_neq a b : a <> b -> la_eqb a b = false.
+Proof. intros N. destruct (la_eqb a b) eqn:E; [|reflexivity]. now apply la_eqb_eq in E. Qed.
+
+Theorem wrong_basic_denied c r u p u' p' : basic c = Some (u, p) -> ~ In colon u' -> (u', p') <> (u, p) ->
+  route c r = Api -> hdr r = std_basic u' p' -> chain c r = Unauth /\ served c r = false.
+Proof.
+  intros B Hu Hne R Hh.
+  assert (C : chain c r = Unauth).
+  { unfold chain. rewrite R, Hh, auth_cases, B, skip_basic_std.
+    unfold carries_basic. rewrite B, (parse_basic_std u' p' Hu).
+    destruct (la_eqb u' u) eqn:EU; [|reflexivity]. apply la_eqb_eq in EU. subst u'.
+    rewrite la_eqb_neq; [reflexivity|]. intros ->. now apply Hne. }
+  split; [exact C|]. unfold served. now rewrite C.
+Qed.
+
+Theorem wrong_token_denied c r t t' : token c = Some t -> ~ In sp t' -> t' <> t ->
+  route c r = Api -> hdr r = std_bearer t' -> chain c r = Unauth /\ served c r = false.
+Proof.
+  intros T Hsp Hne R Hh.
+  assert (S : split_sp (std_bearer t') = [L "Bearer"; t']) by (apply std_bearer_split; now apply not_in_forall).
+  assert (C : chain c r = Unauth).
+  { unfold chain. rewrite R, Hh, auth_cases.
+    assert (CT : carries_token c (std_bearer t') = false).
+    { unfold carries_token. rewrite T, S, (la_eqb_neq t' t Hne). apply andb_false_r. }
+    assert (SK : skip_basic c (std_bearer t') = true).
+    { unfold skip_basic. rewrite T, S. cbn [List.length hd]. rewrite la_eqb_refl. reflexivity. }
+    rewrite CT, SK, T. destruct (basic c); reflexivity. }
+  split; [exact C|]. unfold served. now rewrite C.
+Qed.
+
+(* premises of wrong_basic_denied / wrong_token_denied are met by a concrete state *)
+Lemma ex_wrong_premises :
+  basic cfg_both = Some (L "admin", L "secret") /\ ~ In colon (L "admin") /\ (L "admin", L "secreT") <> (L "admin", L "secret") /\
+  token cfg_both = Some (L "tok123") /\ ~ In sp (L "tok124") /\ L "tok124" <> L "tok123" /\
+  route cfg_both {| method := L "GET"; path := L "/bd/api/v1/dags"; rawpath := []; hdr := std_basic (L "admin") (L "secreT") |} = Api.
+Proof.
+  repeat split; try reflexivity; try discriminate.
+  - intros H; vm_compute in H; intuition discriminate.
+  - intros H; vm_compute in H; intuition discriminate.
+Qed.
